@@ -342,10 +342,10 @@ PLANS["C10"]["min_counts"]["thorough"].update({"large.enters_with_over_255_store
 PLANS["C01"]["min_counts"]["quick"].update({"large.dispatches_with_over_255_items": 10})
 PLANS["C01"]["min_counts"]["thorough"].update({"large.dispatches_with_over_255_items": 300})
 # 70,000-byte buffers: six hand-built sessions of ~10^5 operations each crossing 65,535 / 65,536 (optimised build with assertions)
-_HUGE_RULE = (" Huge-buffer stage: six hand-built sessions in command / history buffers of 70,000 bytes (65,530 one-byte characters then characters of every length across 65,535 / 65,536 with edits at both ends; "
-              "32,768 two-byte characters; 33,000 tokens; a history turned over by 1,000-byte lines and walked to its oldest entry and back; 17,500 stored four-byte entries with eviction; an application write and a prompt change with the cursor far inside a 65,600-character line), every call under the same monitors.")
+_HUGE_RULE = (" Huge-buffer stage: seven hand-built sessions, six in command / history buffers of 70,000 bytes (65,530 one-byte characters then characters of every length across 65,535 / 65,536 with edits at both ends; "
+              "32,768 two-byte characters; 33,000 tokens; a history turned over by 1,000-byte lines and walked to its oldest entry and back; 17,500 stored four-byte entries with eviction; an application write and a prompt change with the cursor far inside a 65,600-character line) and one of 1.3 million input bytes in 8 / 9-byte buffers (66,000 characters typed, moved over and deleted, 6,600 submissions, recalls and completions), every call under the same monitors.")
 for _p, _tiers in (("C05", ["quick", "thorough"]), ("C10", ["quick", "thorough"]), ("C01", ["thorough"]), ("C06", ["thorough"]), ("C13", ["thorough"]), ("C15", ["thorough"])):
-    PLANS[_p]["stages"].append({"variant": "fast", "workload": _p + "-huge", "shards": 6, "tiers": _tiers, "timeout_quick": 900})
+    PLANS[_p]["stages"].append({"variant": "fast", "workload": _p + "-huge", "shards": 7, "tiers": _tiers, "timeout_quick": 900})
     PLANS[_p]["rule"] += _HUGE_RULE + ("" if "quick" in _tiers else " (thorough tier only)")
     for _t in _tiers:
         PLANS[_p]["min_counts"][_t].update({"huge.ops": 400000})
